@@ -50,7 +50,7 @@ FLOORS = {
     "thorough": {"counts": {"jobs_streamed": 4000, "transmissions_checked": 60000}, "keys": 200,
                  "max_inconclusive_frac": 0.2},
 }
-EXHAUSTIVE = {"quick": "every subset of size <= 2 of the transmission indices 0..n+3 of 3-line jobs, x 3 latency classes",
+ENUMERATED = {"quick": "every subset of size <= 2 of the transmission indices 0..n+3 of 3-line jobs, x 3 latency classes",
               "thorough": "every subset of size <= 3 of the transmission indices 0..n+4 of 4-line jobs, x 3 latency classes"}
 LAT = {"0": (0.0, 0.0), "0-3ms": (0.0, 0.003), "10-30ms": (0.010, 0.030), "100-300ms": (0.1, 0.3)}
 COMMENT = re.compile(r";.*$")
